@@ -31,6 +31,12 @@ class Hist:
         self.replies.append(rep)
         return rep
 
+    def maybe_copy(self):
+        """now and then the history continues on a COPY of the whole world (item 49: deep copy, or a pickle round trip with protocol
+        2, 4 or 5); whatever the copy lost or kept by mistake shows in everything observed afterwards"""
+        if self.items and self.rng.random() < self.cfg.get("copy_rate", 0.02):
+            self.emit([49, self.rng.choice([0, 0, 2, 4, 5])])
+
     def fresh_uuid(self):
         u = self.rng.getrandbits(128)
         self.uuids.append(u)
@@ -121,6 +127,7 @@ class Hist:
         return self.rng.choice(cands)
 
     def op_setparent(self):
+        self.maybe_copy()
         rng = self.rng
         kind = rng.choice([k for k in KINDS if k != "IR" and self.by_kind[k]])
         c = rng.choice(self.by_kind[kind])
@@ -129,6 +136,7 @@ class Hist:
         self.emit([2, c, opt(p)])
 
     def op_set(self):
+        self.maybe_copy()
         rng = self.rng
         okind = rng.choice([k for k in FIELDS if self.by_kind[k]])
         p = rng.choice(self.by_kind[okind])
@@ -181,6 +189,7 @@ class Hist:
         return self.rng.choice(cands) if cands else None
 
     def op_mods(self):
+        self.maybe_copy()
         rng = self.rng
         if not self.by_kind["IR"] or not self.by_kind["Module"]:
             return
@@ -263,6 +272,7 @@ class Hist:
             self.emit([28, ir])
 
     def op_attr(self):
+        self.maybe_copy()
         rng = self.rng
         r = rng.random()
         if r < 0.3 and self.by_kind["ByteInterval"]:
@@ -295,6 +305,7 @@ class Hist:
                 self.emit([18, s, pay])
 
     def op_symx(self):
+        self.maybe_copy()
         rng = self.rng
         if not self.by_kind["ByteInterval"]:
             return
